@@ -83,6 +83,17 @@ Theorem T02_tables : (forall c, is_ws c = true <-> (c = 9 \/ c = 10 \/ c = 13 \/
 Proof. repeat split; try apply is_ws_spec; try apply is_xmlchar_spec; [exact namechar_follow|exact firstname_not_special]. Qed.
 Print Assumptions T02_tables.
 
+(** supplementary name characters: every surrogate-pair test in XMLReader::getName / getNCName (constants read from
+    XMLReader.cpp on every run) is  0xD800 <= high <= 0xDB7F, 0xDC00 <= low <= 0xDFFF, and these pairs - the model's
+    is_hi_name / is_lo - are exactly the code points [#x10000-#xEFFFF] of productions [4]/[4a]; widening a bound
+    (e.g. to 0xDBFF, which would admit the private-use planes 15/16 into names) breaks this obligation *)
+Theorem T02_name_surrogates :
+  reader_name_surrogate_tests <> [] /\ forallb surr_test_ok reader_name_surrogate_tests = true /\
+  (forall h l, is_hi_name h = true -> is_lo l = true -> 0x10000 <= pair_cp h l <= 0xEFFFF) /\
+  (forall cp, 0x10000 <= cp <= 0xEFFFF -> exists h l, is_hi_name h = true /\ is_lo l = true /\ pair_cp h l = cp).
+Proof. exact name_surrogates_ok. Qed.
+Print Assumptions T02_name_surrogates.
+
 (** REJECT SIDE.  Full statement (not proved):
       T02_reject : forall cfg s ev, xscan cfg s = (ev, OOk) -> exists d ch, wf_ldoc (ns cfg) d = true /\ s = render d ch.
     It is FALSE for the faithful model, as the two refutations below show (known findings F41, F42); the
